@@ -140,7 +140,15 @@ STRUCT = {}          # pool id -> how to parse it (reset with every behaviour)
 def structured_cell(rng):
     from pytoniq_core.boc import Builder, Address
     from pytoniq_core.boc.hashmap.hashmap import HashMap
-    k = rng.choice(['dict', 'dict', 'dict_via_holder', 'dict_aug', 'message', 'vmstack'])
+    k = rng.choice(['dict', 'dict', 'dict_via_holder', 'dict_aug', 'message', 'vmstack', 'pruned', 'pruned', 'pruned'])
+    if k == 'pruned':
+        # a pruned branch with one of the sparse or dense level masks: cells of level > 0 enter the pool, builders reference them
+        mask = rng.choice([1, 2, 4, 3, 5, 6])
+        n = bin(mask).count('1')
+        y = bytes([1, mask]) + bytes(rng.getrandbits(8) for _ in range(32 * n)) + b''.join(rng.randint(0, 3).to_bytes(2, 'big') for _ in range(n))
+        b = Builder(type_=1)
+        b.store_bytes(y)
+        return {'as': 'dict', 'w': 3}, b.end_cell()
     if k in ('dict', 'dict_via_holder'):
         w = rng.choice([3, 8, 16])
         hm = HashMap(w).with_uint_values(8)
